@@ -7,7 +7,7 @@ From SX Require Import Base.Loop Base.Bytes Model.RangeIter Model.IPNet Model.Ex
 Import ListNotations.
 Open Scope Z_scope.
 
-(* line outcomes travel packed: kind [ipf [n ip...] portf [sign b3 b2 b1 b0]] *)
+(* line outcomes travel packed: kind [ipf [n ip...] portf [sign b7 .. b0]] *)
 Fixpoint decode_lines (fuel : nat) (l : list Z) : list line :=
   match fuel with
   | O => []
@@ -24,8 +24,8 @@ Fixpoint decode_lines (fuel : nat) (l : list Z) : list line :=
             | _, _ => (None, l1)
             end in
           match l2 with
-          | 1 :: s :: b3 :: b2 :: b1 :: b0 :: l3 =>
-              let v := ((b3 * 256 + b2) * 256 + b1) * 256 + b0 in
+          | 1 :: s :: b7 :: b6 :: b5 :: b4 :: b3 :: b2 :: b1 :: b0 :: l3 =>
+              let v := be_num [b7; b6; b5; b4; b3; b2; b1; b0] in
               LJson ipv (Some (if s =? 1 then - v else v)) :: decode_lines f l3
           | _ :: l3 => LJson ipv None :: decode_lines f l3
           | [] => []
